@@ -365,7 +365,7 @@ example :
     let y1 : Blk := ⟨1, 12, 1, true⟩
     let y2 : Blk := ⟨2, 13, 12, true⟩
     let es : List Ev := [.deliver 0 g false, .deliver 1 x1 false, .deliver 2 y2 false,
-      .iter none true, .iter (some g) true, .deliver 1 y1 false, .deliver 2 y2 false]
+      .iter (some y1) true, .iter (some g) true, .deliver 1 y1 false, .deliver 2 y2 false]
     Linked ([] : Chain) ∧ EnvOK es ∧
     (Impl.run Cfg.fixed (Impl.init []) es).2 =
       [.stored 0 1, .newHead 0 1, .stored 1 2, .newHead 1 2, .reverted 1 2,
